@@ -1,6 +1,7 @@
 package main
 
 import (
+	"strings"
 	"fmt"
 	"go/token"
 
@@ -79,9 +80,29 @@ func runC02(r *Report) {
 			n++
 			rv := Recv(w)
 			okOrigin := true
+			isFwdField := func(rt Root) bool {
+				return rt.Kind == "field" && strings.HasPrefix(rt.Desc, "Bridge.sourceForwarder")
+			}
 			for _, rt := range Origins(rv) {
-				// must be a load of Bridge.sourceForwarder made in this call
-				if rt.Kind != "field" || len(rt.Desc) < len("Bridge.sourceForwarder") || rt.Desc[:len("Bridge.sourceForwarder")] != "Bridge.sourceForwarder" {
+				// must be a load of Bridge.sourceForwarder made in this call, directly or through a
+				// same-package getter whose every result is such a load (currentSourceForwarder()-style)
+				if isFwdField(rt) {
+					continue
+				}
+				getter := false
+				if c, ok := rt.V.(*ssa.Call); ok && rt.Kind == "call" {
+					if g := c.Common().StaticCallee(); g != nil && g.Pkg == dw.Pkg && len(g.Blocks) > 0 && g.Signature.Results().Len() == 1 {
+						getter = true
+						for _, ret := range Returns(g) {
+							for _, r2 := range Origins(RetVal(ret, 0)) {
+								if !isFwdField(r2) {
+									getter = false
+								}
+							}
+						}
+					}
+				}
+				if !getter {
 					okOrigin = false
 				}
 			}
@@ -196,10 +217,27 @@ func runC02(r *Report) {
 		}
 	}
 	if lc := r.need("R-C02-3", sessPkg, "SessionManager.runBridgeLifecycle"); lc != nil {
+		delUnderLock := func(in ssa.Instruction) bool {
+			c, ok := in.(*ssa.Call)
+			if !ok {
+				return false
+			}
+			b, ok := c.Call.Value.(*ssa.Builtin)
+			if !ok || b.Name() != "delete" {
+				return false
+			}
+			if _, f, _, ok := FieldOf(c.Call.Args[0]); !ok || f != "tunnelBridges" {
+				return false
+			}
+			return lockSetsOf(in.Parent()).Held(in, "bridgeLock") == "W"
+		}
 		var ls *LockSets
 		for _, ret := range Returns(lc) {
 			// delete(tunnelBridges, id) under bridgeLock
 			okDel := !ReachesWithout(lc, ret, func(in ssa.Instruction) bool {
+				if in.Parent() == lc && performsVia(in, delUnderLock, nil) {
+					return true
+				}
 				if d, isDefer := in.(*ssa.Defer); isDefer {
 					// a deferred closure that deletes under the lock runs on every exit after this point
 					if g := resolveClosure(d.Call.Value, lc, 0); g != nil && g.Parent() == lc {
